@@ -379,8 +379,10 @@ def gen_query(draw, vals):
     elif q['type'] == 'freq':
         q['limit'] = draw(st.integers(1, 30)) if _p(draw, 75) else None
     m = draw(st.integers(0, 99))
-    if m < 40:
+    if m < 35:
         q['mode'], q['k'] = 'once', 1
+    elif m < 40:
+        q['mode'], q['k'] = 'mutated', 1
     elif m < 65:
         q['mode'], q['k'] = 'rerun', draw(st.integers(2, 3))
     elif m < 77:
@@ -872,6 +874,23 @@ def evaluate(ref: RefDB, db, q) -> list[Failure]:
         return []
 
     qobj = make_query(q)
+    if q.get('mode') == 'mutated' and isinstance(filt, dict):
+        # The query classes are plain mutable dataclasses normalised when the SQL is built: a query that was run
+        # and then edited in place must answer for its current field values.
+        simple = ['min_distance', 'max_distance', 'min_seat_capacity', 'max_seat_capacity', 'service_type', 'aircraft_type']
+        q0 = dict(q, filter={k: v for k, v in filt.items() if k not in simple}, start=None, end=None)
+        target = qobj
+        qobj = make_query(q0)
+        try:
+            _materialise(db(qobj))
+        except core.PASS_THROUGH:
+            raise
+        except Exception:  # noqa: BLE001  (judged when the stripped query is generated as a case of its own)
+            qobj = target
+        else:
+            for k in simple:
+                setattr(qobj.filter, k, getattr(target.filter, k))
+            qobj.start_date, qobj.end_date = target.start_date, target.end_date
     results, exc = execute(db, qobj, q)
     fails: list[Failure] = []
     exp = ref.select(q)
@@ -1131,7 +1150,7 @@ def classify(ctx, ref, q, dbkind):
             ctx.label('freq:truncated-by-limit')
     if q.get('sample') is not None and q.get('mode') in ('rerun', 'interleaved', 'lockstep', 'nested'):
         ctx.label('sample:re-executed')
-    return size == 'proper-subset' or q.get('mode') in ('rerun', 'interleaved', 'lockstep', 'nested', 'tosql') or two_sided
+    return size == 'proper-subset' or q.get('mode') in ('rerun', 'interleaved', 'lockstep', 'nested', 'tosql', 'mutated') or two_sided
 
 
 def check_case(ctx, st_, ref, db, dbd, q):
